@@ -82,6 +82,8 @@ class Run:
         self.events = []          # (step, kind, fields)
         self.choices = []         # the schedule: action codes, for replay
         self.deadlock = False
+        self.steplimit = False
+        self.exit_by = None
         self.exit = None
         self.peak = None
         self.hoststats = {}
@@ -101,8 +103,11 @@ class Run:
                 self.choices.append("sig")
             if k == "DEADLOCK":
                 self.deadlock = True
+            elif k == "STEPLIMIT":
+                self.steplimit = True
             elif k == "EXIT":
                 self.exit = int(f[3])
+                self.exit_by = f[2]
                 self.peak = int(f[7])
                 self.exit_step = st
             elif k == "HOST":
@@ -136,6 +141,66 @@ class Run:
                 out.append("SP")
             elif k == "EXIT":
                 out.append("X")
+        return out
+
+    def sys_events(self):
+        """map the trace to the event tokens of Dsh/Sys.v (see ocaml/sys_runner.ml)"""
+        out = []
+        ev = self.events
+        for j, (st, k, f) in enumerate(ev):
+            who = f[0] if f else ""
+            W = who[1:] if who[:1] == "W" else None
+            if k == "LOCK":
+                if f[1] == "m0":
+                    out.append("LD" if who == "M0" else "SL0" if who == "S0" else "l" + W if W is not None else "?lock0" + who)
+                elif f[1] == "m1":
+                    out.append("SL1" if who == "S0" else "a" + W if W is not None else "?lock1" + who)
+            elif k == "UNLOCK":
+                if f[1] == "m0":
+                    tcv = (":" + f[3]) if len(f) > 3 and f[2] == "tc" and f[3] != "-1" else ""
+                    out.append(("UD" if who == "M0" else "SU0" if who == "S0" else "u" + W if W is not None else "?unlock0" + who) + (tcv if who != "S0" else ""))
+                elif f[1] == "m1":
+                    out.append("SU1" if who == "S0" else "b" + W if W is not None else "?unlock1" + who)
+            elif k == "WAIT" and who == "M0":
+                out.append("WD")
+            elif k == "WOKEN" and who == "M0":
+                out.append("KD")
+            elif k == "CREATE" and W is not None:
+                out.append("C" + W)
+            elif k == "START":
+                if W is not None:
+                    out.append("S" + W)
+                elif who == "D0":
+                    out.append("WW")
+            elif k == "CONNBEGIN":
+                out.append("B" + W)
+            elif k == "CONNECT":
+                out.append({"ok": "o", "refused": "r", "interrupted": "i"}[f[2]] + W)
+            elif k == "POLL" and f[1] == "EINTR":
+                out.append("p" + W)
+            elif k == "FPUTS" and W is not None and f[1] == "err" and b"command timeout" in vlib.unhex(f[2]):
+                out.append("R" + W)
+            elif k == "RSIGNAL":
+                out.append(("G" + f[1][1:]) if who == "S0" else ("t" + W))
+            elif k == "DESTROY":
+                out.append("d" + W)
+            elif k == "SIGNAL" and f[1] == "c0" and W is not None:
+                out.append("s" + W)
+            elif k == "SLEPT" and who == "D0":
+                out.append("WW")
+            elif k == "PKILL" and who == "D0":
+                out.append("K" + f[2][1:])
+            elif k == "SIGARRIVE":
+                out.append("AI" if f[0] == "2" else "AT")
+            elif k == "SIGWAIT":
+                nxt = next(((kk, ff) for (_, kk, ff) in ev[j + 1:] if ff and ff[0] == "S0"), None)
+                out.append("RA" if (nxt and nxt[0] == "RAISE") else "TK")
+            elif k == "TICK":
+                out.append("TI")
+            elif k == "SPURIOUS":
+                out.append("SP")
+            elif k == "EXIT":
+                out.append("X" if who == "M0" else "XS" if who == "S0" else "?exit" + who)
         return out
 
     def summary(self):
